@@ -211,6 +211,17 @@ def ops_table(ws):
             kw = dict(method=meth, tolerance=400.0)
             return (lambda: d180.spec.sel(lons, lats, **kw).compute()), [d180, buf, lons, lats, kw]
         T[f"sel_ndarray({meth})"] = sel_nd
+    def sel_bbox_other(ds, rng):
+        # stations stored in [0, 360] beyond the 180 meridian, adjacent in the site index; box given in [-180, 180]
+        ns = ds.sizes["site"]
+        lon360 = np.array([185.0 + 5.0 * k for k in range(ns)])
+        d360 = ds.assign(lon=("site", lon360), lat=("site", np.array([10.0 + k for k in range(ns)])))
+        lons = np.array([-176.0, float(lon360[-1]) - 360.0 + 1.0])
+        lats = np.array([9.0, 10.0 + ns])
+        kw = dict(method="bbox", tolerance=0.5)
+        return (lambda: d360.spec.sel(lons, lats, **kw).compute()), [d360, lons, lats, kw]
+
+    T["sel_bbox(other convention)"] = sel_bbox_other
     for meth in ("nearest", "idw", "bbox", None):
         def sel(ds, rng, meth=meth):
             lons = [float(ds.lon[0]) + 0.1, float(ds.lon[-1]) - 0.1]
